@@ -70,6 +70,60 @@ func rangeExpr(r *Rand, bs []int64, inc bool) eExpr {
 	}
 }
 
+// rangeDocset: documents over one or two range fields (field 2, 3) and a default field (0), with queries probing every
+// bound +-1
+func rangeDocset(r *Rand, kind string, two bool) eCase {
+	bs := genBounds(r)
+	c := eCase{Kind: kind, Policy: "error", Configs: map[int]string{2: "ext_range", 3: "ext_range"}}
+	nd := 1 + r.Intn(6)
+	for d := 0; d < nd; d++ {
+		doc := eDoc{ID: int64(d+1) * int64(1-2*r.Intn(2))}
+		for k := 1 + r.Intn(2); k > 0; k-- {
+			var cj eConj
+			for e := 1 + r.Intn(3); e > 0; e-- {
+				if r.Chance(80) {
+					e := rangeExpr(r, bs, r.Chance(65))
+					if two && r.Bool() {
+						e.F = 3
+					}
+					cj = append(cj, e)
+				} else {
+					cj = append(cj, eExpr{F: 0, Inc: r.Chance(70), V: intsShape(r, randVals(r, 1, 3))})
+				}
+			}
+			doc.Cons = append(doc.Cons, cj)
+		}
+		c.Docs = append(c.Docs, doc)
+	}
+	for q := 10 + r.Intn(8); q > 0; q-- {
+		var a []eAssign
+		if r.Chance(90) {
+			m := 1 + r.Intn(3)
+			l := make([]TV, m)
+			for j := range l {
+				l[j] = tvInt("int64", pick(r, bs)+int64(r.Intn(3)-1))
+			}
+			switch {
+			case m == 1 && r.Chance(40):
+				a = append(a, eAssign{F: 2, V: pick(r, []TV{l[0], tvStr(fmt.Sprint(*l[0].I)), tvInt("int", *l[0].I)})})
+			case r.Chance(30):
+				a = append(a, eAssign{F: 2, V: tvList(l...)})
+			default:
+				a = append(a, eAssign{F: 2, V: tvSlice("[]int64", l...)})
+			}
+		}
+		if r.Chance(40) {
+			a = append(a, eAssign{F: 0, V: tvInt("int", r.I64(1, 4))})
+		}
+		if two && r.Chance(70) {
+			a = append(a, eAssign{F: 3, V: tvInt("int64", pick(r, bs)+int64(r.Intn(3)-1))})
+		}
+		c.Queries = append(c.Queries, eQuery{A: a})
+	}
+	c.Queries = append(c.Queries, eQuery{})
+	return c
+}
+
 func init() {
 	props["C06"] = &propDef{
 		header:    "From BE Require Import Corr.CheckC06.",
@@ -82,60 +136,11 @@ func init() {
 				n = 4000
 			}
 			for i := 0; i < n; i++ {
-				bs := genBounds(r)
 				kind := "kgroups"
 				if i%2 == 1 {
 					kind = "compact"
 				}
-				c := eCase{Kind: kind, Policy: "error", Configs: map[int]string{2: "ext_range", 3: "ext_range"}}
-				two := i%4 >= 2 // two range fields: each must keep its own values and intervals
-				nd := 1 + r.Intn(6)
-				for d := 0; d < nd; d++ {
-					doc := eDoc{ID: int64(d+1) * int64(1-2*r.Intn(2))}
-					for k := 1 + r.Intn(2); k > 0; k-- {
-						var cj eConj
-						for e := 1 + r.Intn(3); e > 0; e-- {
-							if r.Chance(80) {
-								e := rangeExpr(r, bs, r.Chance(65))
-								if two && r.Bool() {
-									e.F = 3
-								}
-								cj = append(cj, e)
-							} else {
-								cj = append(cj, eExpr{F: 0, Inc: r.Chance(70), V: intsShape(r, randVals(r, 1, 3))})
-							}
-						}
-						doc.Cons = append(doc.Cons, cj)
-					}
-					c.Docs = append(c.Docs, doc)
-				}
-				for q := 10 + r.Intn(8); q > 0; q-- {
-					var a []eAssign
-					if r.Chance(90) {
-						m := 1 + r.Intn(3)
-						l := make([]TV, m)
-						for j := range l {
-							l[j] = tvInt("int64", pick(r, bs)+int64(r.Intn(3)-1))
-						}
-						switch {
-						case m == 1 && r.Chance(40):
-							a = append(a, eAssign{F: 2, V: pick(r, []TV{l[0], tvStr(fmt.Sprint(*l[0].I)), tvInt("int", *l[0].I)})})
-						case r.Chance(30):
-							a = append(a, eAssign{F: 2, V: tvList(l...)})
-						default:
-							a = append(a, eAssign{F: 2, V: tvSlice("[]int64", l...)})
-						}
-					}
-					if r.Chance(40) {
-						a = append(a, eAssign{F: 0, V: tvInt("int", r.I64(1, 4))})
-					}
-					if two && r.Chance(70) {
-						a = append(a, eAssign{F: 3, V: tvInt("int64", pick(r, bs)+int64(r.Intn(3)-1))})
-					}
-					c.Queries = append(c.Queries, eQuery{A: a})
-				}
-				c.Queries = append(c.Queries, eQuery{})
-				add(c)
+				add(rangeDocset(r, kind, i%4 >= 2)) // half of them over two range fields: each must keep its own values and intervals
 			}
 			// RangeIdx insert histories (hook)
 			nh := 150
